@@ -46,7 +46,7 @@ pub(crate) fn node_val_ok(n: NodeKind, v: Option<u8>) -> bool {
     }
 }
 
-//% props=C18,C08 tier=quick kind=P covers=set_node.*,get_node.*,is_node_some.*,is_node_none.*,law.get_after_set_node,law.absent_reads_absent,law.node_match_after_set,law.set_node_frame,law.wf_set_node pair=Segment::set_node,Segment::get_node,Segment::is_node_some,Segment::is_node_none
+//% props=C18,C08 tier=quick kind=P covers=set_node.*,get_node.*,is_node_some.*,is_node_none.*,law.get_after_set_node,law.absent_reads_absent,law.node_match_after_set,law.set_node_frame,law.wf_set_node,set_lab.in_range,set_cor.in_range,set_dor.in_range,set_phr.in_range pair=Segment::set_node,Segment::get_node,Segment::is_node_some,Segment::is_node_none
 #[kani::proof]
 #[kani::unwind(9)]
 fn k2_set_node_get_node() {
@@ -436,4 +436,22 @@ fn k0_derived_eq_is_structural() {
     let j: usize = kani::any();
     kani::assume(i < 8 && j < 8);
     assert!((NodeKind::from_usize(i) == NodeKind::from_usize(j)) == (i == j), "NodeKind == is variant identity");
+}
+
+//% props=C04,C18 tier=quick kind=P covers=mask_table.* clause="the documented feature table is a partition of each node's bits into single-bit features"
+#[kani::proof]
+#[kani::unwind(28)]
+fn k2_mask_table_partition() {
+    let mut union = [0u8; 7];
+    let mut i = 0;
+    while i < 26 {
+        let (n, m) = MASK_TABLE[i];
+        assert!(m.count_ones() == 1, "single bit");
+        assert!(m & !width(n) == 0, "inside the node's field");
+        assert!(union[slot(n)] & m == 0, "disjoint from the features before it");
+        union[slot(n)] |= m;
+        i += 1;
+    }
+    let mut k = 0;
+    while k < 7 { assert!(union[k] == width(NODES7[k]), "together they cover the node"); k += 1; }
 }
